@@ -251,7 +251,7 @@ ADDENDA = {
     "C12": " Also: every array form yields the scalar parse's object (==, hash, name), several declarations with identical expression texts in one load, enum bit-fields behind a dynamic member of an aligned struct.",
     "C13": " Also: array/pointer alias re-declarations, unknown references in 15 declarator forms (resolve error, no binding, proper definition loads afterwards), load-keyword histories.",
     "C14": " Also: zero-length array member, all-None / one-positional construction, a size expression that fails at run time, the type description (field order) invariant.",
-    "C15": " Also: a harness resolving two different type names (sizeof / alias) at parse time.",
+    "C15": " Also: a harness resolving two different type names (sizeof / alias) at parse time, and three read-only harnesses (expression-sized inner dimension, byte-sliced integers, terminated wide strings with surrogate pairs; bound 1 in both tiers).",
     "C16": " Also: handles from repeated dereference are the same structure; zero-run stream content.",
     "C17": " Also: union / union-holding-struct / array-of-struct / 2-D / char-bit-field kinds, default = parse of zero bytes, constructed = parse of own dump, in-place assignment below field level on default and partially constructed instances.",
     "C18": " Also: classes created with their first field, one batch interrupted by an exception per history, anonymous members, default-instance independence and the T(bytes) call form in the observation.",
